@@ -83,6 +83,11 @@ LNextSim ==
       [] c = "load"     -> \E t \in 0..(latest + 1) : NewLoad(t)
       [] c = "lvfo"     -> \E t \in 1..(latest + 1) : NewLvfo(t)
       [] c = "delto"    -> \E n \in 0..(latest + 1) : DelOk(n) /\ NewDelTo(n)
+      \* focused generator classes: a rollback to a legacy version below the boundary; an effective prune at or above it
+      [] c = "lvfoleg"  -> LET cand == {t \in Retained : t < ll} IN
+                           IF cand = {} THEN NewSave ELSE \E t \in cand : NewLvfo(t)
+      [] c = "deltoabove" -> LET cand == {n \in DelEff : n >= ll} IN
+                           IF latest = 0 \/ cand = {} THEN NewSave ELSE \E n \in cand : NewDelTo(n)
       [] OTHER          -> NewSave
 LSpecSim == LInit /\ [][LNextSim]_lall
 
